@@ -10,6 +10,7 @@
    stimuli are what the driver can do:
 
      msg     a forwarder writes a copy                       (LoopArrive)
+     rpc     a forwarder writes ONE RPC with several messages, possibly one of them twice
      rel     open the gate of a running validator with a verdict
                                                              (WorkerInline / AsyncDone / LocalInline / OrphanDone)
      adv     let virtual time pass the validator timeout: every running validator that has a
@@ -44,7 +45,7 @@ GInit == Init /\ hist = <<>> /\ firing = {} /\ nblk = 0 /\ nadv = 0 /\ racy = FA
 
 \* ---------------------------------------------------------------- eager part
 EagerEnabled ==
-    \/ sendQ # <<>>
+    \/ sendQ # <<>> \/ loopQ # <<>>
     \/ \E w \in Workers : worker[w].st \in {"sig", "mark", "fin"} \/ (worker[w].st = "idle" /\ valQ # <<>>)
     \/ \E j \in jobs : j.stage = "new" \/ (j.stage = "run" /\ j.run = {})
     \/ \E c \in Calls : local[c].st \in {"mark", "fin"}
@@ -56,7 +57,7 @@ Fire(x, vd) == /\ hist' = [hist EXCEPT ![Len(hist)].tv = Append(@, [v |-> x.v, m
                /\ firing' = firing \ {x} /\ UNCHANGED <<nblk, nadv, racy>>
 
 Eager ==
-    \/ LoopPublish /\ NoRec /\ Keep
+    \/ (LoopPush \/ LoopPublish) /\ NoRec /\ Keep
     \/ \E w \in Workers : (WorkerTake(w) \/ WorkerSig(w) \/ WorkerMarkSeen(w) \/ WorkerFinish(w)) /\ NoRec /\ Keep
     \/ \E j \in jobs : AsyncCombine(j) /\ NoRec /\ Keep
     \/ \E j \in jobs : /\ AsyncStart(j) /\ NoRec /\ UNCHANGED <<firing, nblk, nadv>>
@@ -78,7 +79,13 @@ Running ==   \* validators parked at their gate
     \cup {[kind |-> "c", v |-> local[c].k, id |-> local[c].id] : c \in {d \in Calls : local[d].st = "inline"}}
     \cup {[kind |-> "o", v |-> o.v, id |-> o.id] : o \in orphans}
 
-Send(p, id) == LoopArrive(p, id) /\ Rec([a |-> "msg", p |-> p, m |-> id]) /\ Keep
+Send(p, id) == LoopArrive(p, <<id>>) /\ Rec([a |-> "msg", p |-> p, m |-> id]) /\ Keep
+\* one RPC whose Publish list carries several messages, possibly the same one twice
+\* (the messages of one RPC reach the queue while the workers already take from it, and two workers then run at
+\* once: queue-full and the throttles are decided by the Go scheduler in the real node, so no prediction is compared)
+SendBatch(p, b) == /\ Len(b) > 1 /\ LoopArrive(p, b) /\ Rec([a |-> "rpc", p |-> p, ms |-> b])
+                   /\ racy' = (racy \/ cfg.nv > 0 \/ cfg.signed)
+                   /\ UNCHANGED <<firing, nblk, nadv>>
 
 Rel ==
     \/ \E w \in Workers, vd \in Verdicts :
@@ -102,13 +109,13 @@ Block(w) ==
     /\ nblk < MaxBlock /\ worker[w].st = "idle" /\ valQ = <<>> /\ cfg.signed   \* the blocker carries an invalid signature
     /\ worker' = [worker EXCEPT ![w] = [st |-> "parked", id |-> BName(nblk + 1), src |-> "-", k |-> 0, res |-> "A"]]
     /\ nblk' = nblk + 1 /\ Rec([a |-> "block", m |-> BName(nblk + 1)])
-    /\ UNCHANGED <<cfg, seen, sent, valQ, jobs, gUsed, vUsed, orphans, sendQ, local, outs, mons, firing, nadv, racy>>
+    /\ UNCHANGED <<cfg, seen, sent, valQ, loopQ, jobs, gUsed, vUsed, orphans, sendQ, local, outs, mons, firing, nadv, racy>>
 
 Unblock(w) ==
     /\ worker[w].st = "parked"
     /\ Rec([a |-> "unblock", m |-> worker[w].id])
     /\ worker' = [worker EXCEPT ![w] = Idle]
-    /\ UNCHANGED <<cfg, seen, sent, valQ, jobs, gUsed, vUsed, orphans, sendQ, local, outs, mons, firing, nblk, nadv, racy>>
+    /\ UNCHANGED <<cfg, seen, sent, valQ, loopQ, jobs, gUsed, vUsed, orphans, sendQ, local, outs, mons, firing, nblk, nadv, racy>>
 
 Adv ==
     /\ nadv < MaxAdv
@@ -121,6 +128,7 @@ Adv ==
 Stimulus ==
     /\ Len(hist) < L
     /\ \/ \E p \in Fwd, id \in Ids : Send(p, id)
+       \/ \E p \in Fwd, b \in Batches : SendBatch(p, b)
        \/ Rel
        \/ \E c \in Calls, id \in LocalIds : Pub(c, id)
        \/ \E w \in Workers : Block(w) \/ Unblock(w)
